@@ -14,8 +14,9 @@ Failure rules (the statement of C10 + the documented S4U behaviour):
   * an activity started on an already failed resource fails at once (netfail for a comm over a dead link, hostfail for an
     exec on a dead host).
   * a put/get that is never matched blocks for ever (it involves no failed resource): the actor ends "blocked".
-  * events carrying the same date as a fault may be processed before or after it: all orders are explored and the result
-    is the SET of allowed outcomes.
+  * what carries the same date as a fault (an activity completing, an actor starting its next op or exiting) may be
+    processed before or after it: every interleaving is explored and the result is the SET of allowed outcomes; an actor
+    that exits at the very date its host fails may see on_exit(failed) either way.
 outcome = tuple over actors of (log, exit) with log = ((op index, result, date), ...), result in ok|netfail|hostfail,
 exit = ("exit", failed, date) | ("blocked",)
 """
@@ -60,7 +61,7 @@ def outcomes(plat, prog, faults):
     s = St()
     s.t, s.pc, s.st = 0.0, [0] * n, [None] * n     # st: None = ready to start its next op, or dict(kind=...)
     s.logs, s.exits, s.off = [[] for _ in range(n)], [None] * n, set()
-    s.faults = sorted(faults, key=lambda f: f[1])
+    s.faults = sorted([tuple(f) for f in faults], key=lambda f: f[1])
     res = set()
     _run(plat, prog, s, res)
     return res
@@ -72,51 +73,49 @@ def _log(s, a, result):
     s.st[a] = None
 
 
-def _advance(plat, prog, s):
-    """let every ready actor start its next op(s) at date s.t until nothing changes"""
+def _start(plat, prog, s, a):
+    """actor a (ready) starts its next op, or exits, at date s.t"""
     n = len(prog)
-    changed = True
-    while changed:
-        changed = False
-        for a in range(n):
-            if s.st[a] is not None or s.exits[a] is not None:
-                continue
-            if s.pc[a] >= len(prog[a]):
-                s.exits[a] = ("exit", 0, s.t)
-                s.st[a] = {"kind": "done"}
-                changed = True
-                continue
-            op = prog[a][s.pc[a]]
-            changed = True
-            if op == "E":
-                s.st[a] = {"kind": "exec", "end": s.t + EXEC}
-            elif op == "S":
-                s.st[a] = {"kind": "sleep", "end": s.t + SLEEP}
-            elif op[0] == "R":
-                j = int(op[1])
-                if "h%d" % j in s.off:
-                    _log(s, a, "hostfail")
-                else:
-                    s.st[a] = {"kind": "rexec", "end": s.t + REXEC, "host": j}
+    if s.pc[a] >= len(prog[a]):
+        s.exits[a] = ("exit", 0, s.t)
+        s.st[a] = {"kind": "done"}
+        return
+    op = prog[a][s.pc[a]]
+    if op == "E":
+        s.st[a] = {"kind": "exec", "end": s.t + EXEC}
+    elif op == "S":
+        s.st[a] = {"kind": "sleep", "end": s.t + SLEEP}
+    elif op[0] == "R":
+        j = int(op[1])
+        if "h%d" % j in s.off:
+            _log(s, a, "hostfail")
+        else:
+            s.st[a] = {"kind": "rexec", "end": s.t + REXEC, "host": j}
+    else:
+        j = int(op[1])
+        want = "get" if op[0] == "P" else "put"
+        if j < n and s.st[j] is not None and s.st[j].get("kind") == want and s.st[j]["peer"] == a:
+            links = route(plat, a, j)
+            if any(l in s.off for l in links):
+                _log(s, a, "netfail")
+                _log(s, j, "netfail")
             else:
-                j = int(op[1])
-                want = "get" if op[0] == "P" else "put"
-                if j < n and s.st[j] is not None and s.st[j].get("kind") == want and s.st[j]["peer"] == a:
-                    links = route(plat, a, j)
-                    if any(l in s.off for l in links):
-                        _log(s, a, "netfail")
-                        _log(s, j, "netfail")
-                    else:
-                        end = s.t + comm_duration(plat, a, j)
-                        s.st[a] = {"kind": "comm", "end": end, "peer": j, "links": links, "lead": True}
-                        s.st[j] = {"kind": "comm", "end": end, "peer": a, "links": links, "lead": False}
-                else:
-                    s.st[a] = {"kind": "put" if op[0] == "P" else "get", "peer": j}
+                end = s.t + comm_duration(plat, a, j)
+                s.st[a] = {"kind": "comm", "end": end, "peer": j, "links": links, "lead": True}
+                s.st[j] = {"kind": "comm", "end": end, "peer": a, "links": links, "lead": False}
+        else:
+            s.st[a] = {"kind": "put" if op[0] == "P" else "get", "peer": j}
+
+
+def _ready(prog, s):
+    return [a for a in range(len(prog)) if s.st[a] is None and s.exits[a] is None]
 
 
 def _fault(plat, prog, s, r):
+    """-> True if an actor of that host had exited at this very date (its on_exit may then see failed=1 as well)"""
     n = len(prog)
     s.off.add(r)
+    flip = None
     if r[0] == "h":
         k = int(r[1])
         if k < n and s.exits[k] is None:
@@ -125,6 +124,8 @@ def _fault(plat, prog, s, r):
                 _log(s, st["peer"], "netfail")
             s.exits[k] = ("exit", 1, s.t)
             s.st[k] = {"kind": "dead"}
+        elif k < n and s.exits[k] == ("exit", 0, s.t):
+            flip = k
         for a in range(n):
             st = s.st[a]
             if st is not None and st.get("kind") == "rexec" and st["host"] == k:
@@ -135,12 +136,11 @@ def _fault(plat, prog, s, r):
             if st is not None and st.get("kind") == "comm" and st["lead"] and r in st["links"]:
                 _log(s, st["peer"], "netfail")
                 _log(s, a, "netfail")
+    return flip
 
 
 def _complete(s, a):
     st = s.st[a]
-    if st is None or st.get("end") != s.t:
-        return                      # failed or killed meanwhile (tie with a fault processed first)
     if st["kind"] == "comm":
         p = st["peer"]
         _log(s, a, "ok")
@@ -149,44 +149,51 @@ def _complete(s, a):
         _log(s, a, "ok")
 
 
+def _due(prog, s):
+    return [a for a in range(len(prog)) if s.st[a] is not None and s.st[a].get("end") == s.t
+            and not (s.st[a]["kind"] == "comm" and not s.st[a]["lead"])]
+
+
 def _run(plat, prog, s, res):
     n = len(prog)
     while True:
-        _advance(plat, prog, s)
-        ends = [st["end"] for st in s.st if st is not None and "end" in st]
-        nxt = min(ends) if ends else None
-        fd = s.faults[0][1] if s.faults else None
-        if nxt is None and fd is None:
-            break
-        if fd is not None and (nxt is None or fd < nxt):
-            s.t = fd
-            r = s.faults.pop(0)[0]
-            _fault(plat, prog, s, r)
-            continue
-        s.t = nxt
-        who = [a for a in range(n) if s.st[a] is not None and s.st[a].get("end") == nxt
-               and not (s.st[a]["kind"] == "comm" and not s.st[a]["lead"])]
-        if fd is None or fd > nxt:
-            for a in who:
-                _complete(s, a)
-            continue
-        # tie: completions `who` and every fault dated nxt, in every order; the actors woken up by an event run (and may start
-        # new activities) before the next event of the same date is processed
-        fl = [f for f in s.faults if f[1] == nxt]
-        rest = [f for f in s.faults if f[1] != nxt]
-        evs = [("c", a) for a in who] + [("f", f[0]) for f in fl]
-        for perm in itertools.permutations(evs):
-            s2 = s.copy()
-            s2.faults = list(rest)
-            for kind, x in perm:
+        ready, due = _ready(prog, s), _due(prog, s)
+        faults_now = [f for f in s.faults if f[1] == s.t]
+        if faults_now:
+            # micro-steps carrying the same date as a fault: every interleaving of {a completion, an actor starting its next
+            # op (or exiting), the fault} is allowed
+            steps = [("c", a) for a in due] + [("s", a) for a in ready] + [("f", f) for f in faults_now]
+            for kind, x in steps:
+                s2 = s.copy()
                 if kind == "c":
                     _complete(s2, x)
+                    _run(plat, prog, s2, res)
+                elif kind == "s":
+                    _start(plat, prog, s2, x)
+                    _run(plat, prog, s2, res)
                 else:
-                    _fault(plat, prog, s2, x)
-                _advance(plat, prog, s2)
-                # an activity started at this very date and ending at this date does not exist (all durations > 0)
-            _run(plat, prog, s2, res)
-        return
+                    s2.faults.remove(x)
+                    flip = _fault(plat, prog, s2, x[0])
+                    if flip is not None:
+                        s3 = s2.copy()
+                        s3.exits[flip] = ("exit", 1, s3.t)
+                        _run(plat, prog, s3, res)
+                    _run(plat, prog, s2, res)
+            return
+        if due:
+            for a in due:
+                _complete(s, a)
+            continue
+        if ready:
+            for a in ready:
+                if s.st[a] is None and s.exits[a] is None:
+                    _start(plat, prog, s, a)
+            continue
+        ends = [st["end"] for st in s.st if st is not None and "end" in st]
+        cands = ends + ([s.faults[0][1]] if s.faults else [])
+        if not cands:
+            break
+        s.t = min(cands)
     out = []
     for a in range(n):
         ex = s.exits[a] if s.exits[a] is not None else ("blocked",)
